@@ -65,7 +65,9 @@ func c07Setup(rc *RunCtx) simrt.Config {
 	cfg, sname := drawSimConfig(r, 40000)
 	cfg.IdleCap = 30 * time.Minute
 	c := &c07cfg{}
-	c.kind = TransportKind(r.Choose(6))
+	// DoH is left out: doh.Upstream has no Close and is not in the property's
+	// transport list (pipelined, UDP, non-pipelined); DoQ runs on PipelineTransport.
+	c.kind = []TransportKind{TkUDP, TkTCP, TkTCPPipeline, TkPipelineStream, TkPipelineDgram, TkReuse, TkDoQ}[r.Choose(7)]
 	c.callers = 1 + r.Choose(6)
 	c.mute = r.Choose(6) == 0
 	pick := func(vals ...int) int { return vals[r.Choose(len(vals))] }
@@ -156,6 +158,9 @@ func c07Main(rc *RunCtx) {
 	}
 	rc.Net.Handle("udp", srvAddr, serve).DialFault = dialFault
 	rc.Net.Handle("tcp", srvAddr, serve).DialFault = dialFault
+	rc.Net.Handle("udp", dohAddr, serve).DialFault = dialFault
+	rc.Net.Handle("tcp", doqAddr, serve) // QUIC streams: opening one is not a dial
+	w.DoQDialFault = dialFault
 	rc.Net.OnDial = func(cc *simnet.Conn) {
 		if simrt.Choose(100) < c.pWriteErr {
 			cc.FailWriteAt = 1 + simrt.Choose(3)
